@@ -48,13 +48,13 @@ def run(cx):
     records = cx.func(REL, "ReprStructure.make_record_ch_chunks_all", "R12b")
     detect = cx.func(REL, "ReprStructure.detect_actual_columns_widths", "R12f")
 
-    _r12d(cx, resize)
-    _r12c(cx, fit)
-    _r12b(cx, repo, titles, records)
-    _r12e(cx, mk_line)
-    _r12a(cx, gen)
-    _r12f(cx, repo, detect)
-    _r12g(cx, gen)
+    cx.guard(_r12d, cx, resize)
+    cx.guard(_r12c, cx, fit)
+    cx.guard(_r12b, cx, repo, titles, records)
+    cx.guard(_r12e, cx, mk_line)
+    cx.guard(_r12a, cx, gen)
+    cx.guard(_r12f, cx, repo, detect)
+    cx.guard(_r12g, cx, gen)
 
 
 # ----------------------------------------------------------------------------------------------- contracts
@@ -153,7 +153,7 @@ def _r12d(cx, resize):
     it = WidthInterp(contracts={}, palette_names=("cp",), nonneg_syms=("W(chunks)",))
     path = Path({"chunks": CL(Lin.sym("W(chunks)"), fresh=False), "new_len": Lin.sym("new_len")}, it.base_facts())
     it.run(resize.body, path, loop_hook)
-    _check_goal(cx, "R12d", it, lambda p: Lin.sym("new_len"), "resize_chunks_list", 4)
+    cx.guard(_check_goal, cx, "R12d", it, lambda p: Lin.sym("new_len"), "resize_chunks_list", 4)
     cx.ob("R12d", loop, state["checked"] >= 2, f"{state['checked']} loop paths checked for preservation" if state["checked"] >= 2 else "loop body paths not analysed", stmt="invariant: coverage")
     for ob in it.side:
         if ob.kind != "alias":
@@ -372,7 +372,7 @@ def _r12a(cx, gen):
         else:
             cx.ob("R12a", node, False, f"yielded value `{norm(e)[:60]}` has no decidable width ({val!r})")
     cx.at_least("R12a", "yield sites of gen_ch_lines (per path)", n, 8)
-    _side(cx, "R12a", it)
+    cx.guard(_side, cx, "R12a", it)
     # table_width definition
     d = [v for _, v in assignments(gen, "table_width") if v is not None]
     ok = len(d) == 1
